@@ -8,6 +8,17 @@ NOT_YET = {}
 TB = ("Trusted: Lean kernel (axioms propext, Classical.choice, Quot.sound only; audited by #print axioms on every run); "
       "the hand-written model's correspondence to the code (differential, bounded by the generators whose distribution is in the evidence); ")
 CLAIMS = {
+ "C12": dict(
+  category="other",
+  text=("PARTIAL by nature. Proved in Lean 4 on the model (for every server behaviour): at most 3·(retries+1)+1 blocking steps of a Valve query can run "
+        "into their timeout (timed-out receives, failed sends, failed socket creation) — a counting logic over the transport log; against a silent server a "
+        "request fails with the receive-class error after exactly retries+1 attempts of one send + one timed-out receive; a received datagram is delivered "
+        "unmodified up to the requested size and a stream whole; sent bytes are handed over unmodified; default timeouts are finite. MEASURED on real "
+        "loopback sockets (IPv4 and IPv6), not proved: that the OS honours the timeouts — wall clock of queries against servers that fall silent at every "
+        "point of the exchange vs (model's count of timed-out steps) x timeout + slack; byte-exact round trips for payloads 0..65507 (UDP) / 100 000 (TCP); "
+        "refused connections. The runtime behaviour a model cannot exhibit (kernel timers, scheduling) is exactly the measured part."),
+  note=TB + "OS socket timeouts, scheduling and the kernel's IPv4/IPv6 stacks are outside any model; TCP and HTTP (ureq agent) paths are added with the Minecraft / Eco families.",
+  technique="Lean 4 proof of the blocking-step bound and transport fidelity on the model + wall-clock measurement on real loopback sockets (partial)"),
  "C05": dict(
   category="proof",
   text=("Lean 4 theorems (family built by a sub-agent under the common brief, merged and re-checked here): for every well-formed Quake 1/2/3 status reply "
